@@ -251,7 +251,8 @@ impl<'a, T> Index<usize> for Col<'a, T> {
     /// assert_eq!(col[3], 0);
     /// ```
     fn index(&self, idx: usize) -> &Self::Output {
-        let pos = idx * (1 + self.skip);
+        // checked, so that a huge `idx` cannot wrap around to an in-range position
+        let pos = idx.checked_mul(1 + self.skip).expect("index out of bounds");
         &self.v[pos]
     }
 }
@@ -363,7 +364,8 @@ impl<'a, T> Index<usize> for ColMut<'a, T> {
     /// assert_eq!(col[3], 0);
     /// ```
     fn index(&self, idx: usize) -> &Self::Output {
-        let pos = idx * (1 + self.skip);
+        // checked, so that a huge `idx` cannot wrap around to an in-range position
+        let pos = idx.checked_mul(1 + self.skip).expect("index out of bounds");
         &self.v[pos]
     }
 }
@@ -379,7 +381,8 @@ impl<'a, T> IndexMut<usize> for ColMut<'a, T> {
     /// col[3] = 42;
     /// ```
     fn index_mut(&mut self, idx: usize) -> &mut Self::Output {
-        let pos = idx * (1 + self.skip);
+        // checked, so that a huge `idx` cannot wrap around to an in-range position
+        let pos = idx.checked_mul(1 + self.skip).expect("index out of bounds");
         &mut self.v[pos]
     }
 }
